@@ -252,6 +252,7 @@ func drawWorld02(r *rng.R, lib *library) *Case {
 		models = append(models, dm)
 		w.Models = append(w.Models, dm.spec)
 	}
+	shareProto(r, &w, &models)
 	nt := 1 + r.Intn(3)
 	total := r.Range(2, 10)
 	var order []int
@@ -570,4 +571,17 @@ func Worker02(cfg Config) *evid.Stats {
 		one(drawWorld02(r, lib))
 	}
 	return st
+}
+
+// shareProto: in one world out of six, model 0 is loaded twice from ONE parsed protobuf (gonnx.NewModel(mp) is
+// exported, so two Models may wrap the same ModelProto): whatever one of them does must not show in the other.
+func shareProto(r *rng.R, w *World, models *[]drawnModel) {
+	if len(w.Models) == 0 || len(w.Models) >= 3 || !r.Chance(1, 6) {
+		return
+	}
+	w.Models[0].ShareProto = true
+	twin := w.Models[0]
+	twin.Name += " (second Model on the same ModelProto)"
+	w.Models = append(w.Models, twin)
+	*models = append(*models, (*models)[0])
 }
